@@ -260,7 +260,8 @@ func C12(tier common.Tier) int {
 							}
 							// the same base with an inline @ignore on the first statement of the first declaration: the comment
 							// travels with its statement, so the set of types reported in the package must survive every layout
-							if len(h) >= 2 && h[0].Encl.HasBody() {
+							// (for a one-line declaration that is itself a site, the comment trails the declaration)
+							if len(h) >= 2 && (h[0].Encl.HasBody() || h[0].Encl.OneLiner()) {
 								ib := *base
 								ib.Blocks = append([]e1.UseBlock(nil), base.Blocks...)
 								ib.Blocks[0].Trail = "// @ignore " + fam + "01"
